@@ -1490,7 +1490,7 @@ def run_doc(case):
         if not str(e).startswith("cannot serialize"):
             raise
         # signing serialises inside the builder: a member that is not text (a Python bool) cannot be written
-        return _unserialisable(strict, e)
+        return _unserialisable(None if case.get("mut") else strict, e)
     if out is None:
         return {"refused": "no-document"}
     obj = None
@@ -1507,7 +1507,7 @@ def run_doc(case):
         except TypeError as e:
             if not str(e).startswith("cannot serialize"):
                 raise
-            return _unserialisable(strict, e)
+            return _unserialisable(None if case.get("mut") else strict, e)
     if isinstance(xml, bytes):
         xml = xml.decode("utf-8")
     tree = xml_to_tree(xml)
@@ -1531,6 +1531,8 @@ def run_doc(case):
 
 def _unserialisable(strict, e):
     """The builder returned (or tried to sign) a message object that has no string form."""
+    if strict is None:  # base of a mutant: there is no document to damage
+        return {"refused": "unserialisable"}
     return {"tree": None, "emit_error": "%s: %s" % (type(e).__name__, e), "xsd": False, "xsd_err": "", "vi": False, "vi_err": "",
             "strict": bool(strict), "mutant": False, "root": ""}
 
@@ -1610,7 +1612,98 @@ def nontrivial(case, impl, lean):
     return "refused" not in impl
 
 
+# ---------------------------------------------------------------------------- known-finding classifier
+# A key is returned only when the failing output shows exactly that root cause: the builder / argument class matches
+# AND repairing that one defect in the emitted tree makes the document valid for the second oracle.
+
+EIDAS = "http://eidas.europa.eu/saml-extensions"
+K_DUP_ID = "C13/authn-query-response-duplicate-assertion-id"
+K_EIDAS_NF = "C13/eidas-requested-attribute-without-nameformat"
+K_ACTION_NS = "C13/authz-query-using-assertion-action-without-namespace"
+K_PEFIM = "C13/pefim-unencrypted-advice-assertion-without-issuer"
+K_NIL_VI = "C13/valid-instance-crashes-on-empty-attribute-value"
+K_BOOL = "C13/authn-request-allow-create-bool-unserialisable"
+
+
+def _has_attr(n, local):
+    return any(a[0] == "" and a[1] == local for a in n[2])
+
+
+def _repair_dup_id(case, t):
+    if case["builder"] != "authn_query_response":
+        return None
+    kids = [k for k in t[4] if k[0] == SAML and k[1] == "Assertion"]
+    ids = [a[2] for k in kids for a in k[2] if a[0] == "" and a[1] == "ID"]
+    if len(ids) < 2 or len(set(ids)) == len(ids):
+        return None
+    for i, k in enumerate(kids):
+        for a in k[2]:
+            if a[0] == "" and a[1] == "ID":
+                a[2] = "%s-%d" % (a[2], i)
+    return t
+
+
+def _repair_eidas_nf(case, t):
+    hit = [n for n, _ in all_nodes(t) if n[0] == EIDAS and n[1] == "RequestedAttribute" and not _has_attr(n, "NameFormat")]
+    if not hit:
+        return None
+    for n in hit:
+        n[2].append(["", "NameFormat", "urn:oasis:names:tc:SAML:2.0:attrname-format:uri"])
+    return t
+
+
+def _repair_action_ns(case, t):
+    if case["builder"] != "authz_decision_query" or not case["args"].get("via_assertion"):
+        return None
+    hit = [k for k in t[4] if k[0] == SAML and k[1] == "Action" and not _has_attr(k, "Namespace")]
+    if not hit:
+        return None
+    for n in hit:
+        n[2].append(["", "Namespace", "urn:oasis:names:tc:SAML:1.0:action:rwedc"])
+    return t
+
+
+def _repair_pefim(case, t):
+    if case["builder"] != "authn_response" or not case["args"].get("pefim"):
+        return None
+    hit = []
+    for n, p in all_nodes(t):
+        if n[0] == SAML and n[1] == "Assertion" and p is not None and p[1] == "Advice" and not any(k[1] == "Issuer" for k in n[4]):
+            hit.append(n)
+    if not hit:
+        return None
+    for n in hit:
+        n[4].insert(0, [SAML, "Issuer", [], "https://idp.verif.example/idp", []])
+    return t
+
+
+REPAIRS = [(K_DUP_ID, _repair_dup_id), (K_EIDAS_NF, _repair_eidas_nf), (K_ACTION_NS, _repair_action_ns), (K_PEFIM, _repair_pefim)]
+
+
+def _empty_typed_value(t):
+    for n, _ in all_nodes(t):
+        if n[0] == SAML and n[1] == "AttributeValue" and not n[3] and not n[4] and \
+                any(a[0] == XSI and a[1] == "type" for a in n[2]) and not any(a[0] == XSI and a[1] == "nil" for a in n[2]):
+            return True
+    return False
+
+
 def finding_key(case, impl, lean):
+    if case["op"] != "doc" or case.get("mut") or "refused" in impl:
+        return None
+    if impl.get("emit_error"):
+        if case["builder"] == "authn_request" and case["args"].get("allow_create") is True and "cannot serialize True" in impl["emit_error"]:
+            return K_BOOL
+        return None
+    tree = impl["tree"]
+    if impl["xsd"] and (lean.get("model") or {}).get("valid"):
+        if not impl["vi"] and impl["vi_err"].startswith("KeyError: xsi:nil") and _empty_typed_value(tree):
+            return K_NIL_VI
+        return None
+    for key, repair in REPAIRS:
+        t2 = repair(case, copy.deepcopy(tree))
+        if t2 is not None and xsd_check(write_tree(t2))[0]:
+            return key
     return None
 
 
@@ -1708,7 +1801,7 @@ def order_cases(rng, n_random):
 
 
 def doc_cases(rng, tier):
-    scale = 1 if tier == "quick" else 10
+    scale = 3 if tier == "quick" else 40
     plan = [("sp", g_sp_cfg, 8 * scale), ("idp", g_idp_cfg, 8 * scale), ("md", g_md_cfg, 24 * scale)]
     per_cfg = 14
     kinds = list(MUT_KINDS)
@@ -1736,9 +1829,9 @@ def doc_cases(rng, tier):
 
 
 def gen_cases(rng, tier):
-    for c in lex_cases(rng, 10 if tier == "quick" else 120):
+    for c in lex_cases(rng, 30 if tier == "quick" else 400):
         yield c
-    for c in order_cases(rng, 4 if tier == "quick" else 40):
+    for c in order_cases(rng, 8 if tier == "quick" else 80):
         yield c
     for c in doc_cases(rng, tier):
         yield c
@@ -1753,12 +1846,22 @@ def shrink(case):
         yield c
     cfg = case["cfg"]
     for sect in ("svc", "top"):
+        if len(cfg.get(sect, {})) > 1:
+            c = copy.deepcopy(case)
+            c["cfg"][sect] = {}
+            yield c
         for k in list(cfg.get(sect, {})):
-            if k == "endpoints":
-                continue
             c = copy.deepcopy(case)
             del c["cfg"][sect][k]
             yield c
+    ident = case["args"].get("identity")
+    if isinstance(ident, dict):
+        for k, v in ident.items():
+            if isinstance(v, list) and len(v) > 1:
+                for i in range(len(v)):
+                    c = copy.deepcopy(case)
+                    c["args"]["identity"][k].pop(i)
+                    yield c
     if cfg.get("role") == "md":
         for r in list(cfg["service"]):
             if len(cfg["service"]) > 1:
